@@ -26,9 +26,10 @@
 (*                                                                         *)
 (* Offsets are 0-based and half open, as the library reports them; the     *)
 (* character at offset p is cs[p + 1].  The expression-level alphabet is   *)
-(* restricted (see Known): paths, brackets, ranges, escapes and `${` are   *)
-(* outside this machine (they are judged by Trace_Tokens on recorded       *)
-(* streams and by LiquidLit).                                              *)
+(* restricted (see Known): variable paths are in (accept_path: dotted and *)
+(* bracketed segments, nested paths, shorthand indexes), ranges, escapes   *)
+(* and `${` are outside this machine (they are judged by Trace_Tokens on   *)
+(* recorded streams and by LiquidLit).                                     *)
 (*                                                                         *)
 (* The intended design where the pinned code deviated (both found by this  *)
 (* machine and repaired in /repo, see DESIGN 0.4):                         *)
@@ -41,7 +42,8 @@ EXTENDS Integers, Sequences, TLC, Json, IOUtils
 
 CONSTANTS Alphabet,     \* sequence of symbol texts
           MaxLen,       \* symbols per source
-          Prefix, Suffix, Focus
+          Prefix, Suffix, Focus,
+          Shorthand     \* Environment.shorthand_indexes: `a.0` is `a[0]`
 
 VARIABLES phase,        \* "build" | "lex"
           text, cs, n,  \* the source as a string, as characters, symbols appended
@@ -67,7 +69,7 @@ WordRest  == WordStart \cup Digits \cup {"-"}
 WordCh    == Lower \cup Digits \cup {"_"}            \* \w, for \b
 Quotes    == {"'", "\""}
 \* the characters this machine gives a meaning to; a source with any other is not generated
-Known     == WS \cup WC \cup Lower \cup Digits \cup Quotes \cup {"_", "{", "}", "%", "#", "|", ":", ","}
+Known     == WS \cup WC \cup Lower \cup Digits \cup Quotes \cup {"_", "{", "}", "%", "#", "|", ":", ",", ".", "[", "]"}
 
 Keywords == [true |-> "TRUE", false |-> "FALSE", and |-> "AND_WORD", or |-> "OR_WORD", in |-> "IN",
              not |-> "NOT_WORD", contains |-> "CONTAINS", nil |-> "NULL", null |-> "NULL", if |-> "IF",
@@ -195,10 +197,16 @@ Kind(p) == IF p >= L THEN "end"
            ELSE "content"
 
 \* ---- TOKEN_RULES on the restricted expression alphabet ---------------------
-NumEnd(p) ==   \* FLOAT `-?[0-9]+[eE]-[0-9]+`, INT `-?[0-9]+(?:[eE]\+?[0-9]+)?`; -1 if no number starts at p
+NumEnd(p) ==   \* FLOAT `-?[0-9]+\.[0-9]+(?:[eE][+-]?[0-9]+)?` | `-?[0-9]+[eE]-[0-9]+`, INT `-?[0-9]+(?:[eE]\+?[0-9]+)?`
   LET s == IF At(p) = "-" THEN p + 1 ELSE p
-      d == RunEnd(s, Digits) IN
+      d == RunEnd(s, Digits)
+      f == RunEnd(d + 1, Digits)          \* end of the fraction, if At(d) = "."
+  IN
   IF d = s THEN [ok |-> FALSE, k |-> "", e |-> p]
+  ELSE IF At(d) = "." /\ f > d + 1 THEN
+       (IF At(f) = "e" /\ At(f + 1) = "-" /\ RunEnd(f + 2, Digits) > f + 2 THEN [ok |-> TRUE, k |-> "FLOAT", e |-> RunEnd(f + 2, Digits)]
+        ELSE IF At(f) = "e" /\ RunEnd(f + 1, Digits) > f + 1 THEN [ok |-> TRUE, k |-> "FLOAT", e |-> RunEnd(f + 1, Digits)]
+        ELSE [ok |-> TRUE, k |-> "FLOAT", e |-> f])
   ELSE IF At(d) = "e" /\ At(d + 1) = "-" /\ RunEnd(d + 2, Digits) > d + 2 THEN [ok |-> TRUE, k |-> "FLOAT", e |-> RunEnd(d + 2, Digits)]
   ELSE IF At(d) = "e" /\ RunEnd(d + 1, Digits) > d + 1 THEN [ok |-> TRUE, k |-> "INT", e |-> RunEnd(d + 1, Digits)]
   ELSE [ok |-> TRUE, k |-> "INT", e |-> d]
@@ -206,10 +214,48 @@ NumEnd(p) ==   \* FLOAT `-?[0-9]+[eE]-[0-9]+`, INT `-?[0-9]+(?:[eE]\+?[0-9]+)?`;
 RECURSIVE FindQuote(_, _)
 FindQuote(p, q) == IF p >= L THEN -1 ELSE IF At(p) = q THEN p ELSE FindQuote(p + 1, q)
 
+\* accept_path: the loop over `.name`, `.0` (shorthand), `[0]`, `['s']`, `[nested.path]` and `]`; `stops` is the stack of
+\* open paths (the stop of each, outermost first).  The result is the outermost path's stop and where the scan goes on,
+\* or an error: end of input, `..` or anything else while a bracket is open, a bracket that closes nothing, a segment that
+\* is neither name, index nor string.
+IndexEnd(q) == LET s == IF At(q) = "-" THEN q + 1 ELSE q IN IF RunEnd(s, Digits) > s THEN RunEnd(s, Digits) ELSE q
+PathErr == [r |-> "error", b |-> 0, e |-> 0]
+SetTop(stops, v) == [stops EXCEPT ![Len(stops)] = v]
+RECURSIVE PathLoop(_, _)
+PathLoop(p, stops) ==
+  IF p >= L THEN PathErr
+  ELSE IF At(p) = "." THEN
+       (IF At(p + 1) = "." THEN (IF Len(stops) > 1 THEN PathErr ELSE [r |-> "ok", b |-> stops[1], e |-> p])
+        ELSE LET q == RunEnd(p + 1, WS) IN
+             IF At(q) \in WordStart THEN PathLoop(RunEnd(q + 1, WordRest), SetTop(stops, RunEnd(q + 1, WordRest)))
+             ELSE IF Shorthand /\ IndexEnd(q) > q THEN PathLoop(IndexEnd(q), SetTop(stops, IndexEnd(q)))
+             ELSE PathErr)
+  ELSE IF At(p) = "]" THEN
+       (IF Len(stops) = 1 THEN PathErr
+        ELSE PathLoop(p + 1, SetTop(SubSeq(stops, 1, Len(stops) - 1), p + 1)))
+  ELSE IF At(p) = "[" THEN
+       LET q == RunEnd(p + 1, WS) IN
+       IF At(q) \in Quotes THEN
+            LET j == FindQuote(q + 1, At(q))
+                r == RunEnd(j + 1, WS) IN
+            IF j = -1 \/ At(r) # "]" THEN PathErr ELSE PathLoop(r + 1, SetTop(stops, r + 1))
+       ELSE IF IndexEnd(q) > q THEN
+            LET r == RunEnd(IndexEnd(q), WS) IN
+            IF At(r) # "]" THEN PathErr ELSE PathLoop(r + 1, SetTop(stops, r + 1))
+       ELSE IF At(q) \in WordStart THEN PathLoop(RunEnd(q + 1, WordRest), Append(stops, RunEnd(q + 1, WordRest)))
+       ELSE PathErr
+  ELSE IF Len(stops) > 1 THEN PathErr          \* a bracket left open
+  ELSE [r |-> "ok", b |-> stops[1], e |-> p]
+
+PathTok(a, pl) == IF pl.r = "ok" THEN [r |-> "tok", k |-> "PathToken", a |-> a, b |-> pl.b, e |-> pl.e]
+                  ELSE [r |-> "error", k |-> "", a |-> a, b |-> a, e |-> a]
+
 \* what accept_token does at p: a token (span a..b, scan continues at e), no token, or an error
 TokenAt(p) ==
   LET num == NumEnd(p) IN
   IF num.ok THEN [r |-> "tok", k |-> num.k, a |-> p, b |-> num.e, e |-> num.e]
+  ELSE IF At(p) = "." /\ At(p + 1) = "." THEN [r |-> "tok", k |-> "DOUBLE_DOT", a |-> p, b |-> p + 2, e |-> p + 2]
+  ELSE IF At(p) = "[" THEN PathTok(p, PathLoop(p, <<-1>>))
   ELSE IF At(p) = "|" /\ At(p + 1) = "|" THEN [r |-> "tok", k |-> "DOUBLE_PIPE", a |-> p, b |-> p + 2, e |-> p + 2]
   ELSE IF At(p) = "|" THEN [r |-> "tok", k |-> "PIPE", a |-> p, b |-> p + 1, e |-> p + 1]
   ELSE IF At(p) = ":" THEN [r |-> "tok", k |-> "COLON", a |-> p, b |-> p + 1, e |-> p + 1]
@@ -222,7 +268,8 @@ TokenAt(p) ==
   ELSE IF At(p) \in WordStart THEN
        LET e == RunEnd(p + 1, WordRest)
            w == Slice(p, e) IN
-       [r |-> "tok", k |-> (IF w \in DOMAIN Keywords THEN Keywords[w] ELSE "WORD"), a |-> p, b |-> e, e |-> e]
+       IF At(e) \in {".", "["} THEN PathTok(p, PathLoop(e, <<e>>))       \* a word that starts a path (keywords too)
+       ELSE [r |-> "tok", k |-> (IF w \in DOMAIN Keywords THEN Keywords[w] ELSE "WORD"), a |-> p, b |-> e, e |-> e]
   ELSE [r |-> "none", k |-> "", a |-> p, b |-> p, e |-> p]
 
 Child(t) == [k |-> t.k, a |-> t.a, b |-> t.b]
@@ -456,7 +503,7 @@ Progress == [][(Lexing /\ Lexing') => (pos' > pos \/ mode' \in {"done", "error"}
 \* ---- export (one line per source) ----------------------------------------------------
 Export ==
   (Lexing /\ mode \in {"done", "error"}) =>
-     Serialize(ToJson([focus |-> Focus, src |-> text, outcome |-> mode,
+     Serialize(ToJson([focus |-> Focus, src |-> text, outcome |-> mode, shorthand |-> Shorthand,
                        toks |-> IF mode = "done" THEN toks ELSE <<>>]) \o "\n", IOEnv.OUT_FILE,
                [format |-> "TXT", charset |-> "UTF-8",
                 openOptions |-> <<"WRITE", "CREATE", "APPEND">>]).exitValue = 0
@@ -469,6 +516,8 @@ AInside == <<"x", "if", "1", "e", "-", "~", " ", "\n", "\r", "'", "\"", "|", ":"
 ALiquid == <<"echo", "x", "1", " ", "\n", "\r", "#", "comment", "endcomment", "%}", "-", "'", "|", "{%", "raw">>
 AComment == <<"{%", "%}", "-", " ", "comment", "endcomment", "raw", "endraw", "x", "{{", "#}", "\n">>
 
+APath == <<"x", "if", "1", "-", ".", "[", "]", "'", " ", "|", "}}", "a-b", "\n">>
+
 \* wrappers of the focuses (a cfg file cannot spell a line break)
 Empty == ""
 POutput == "{{ "            POutputClosed == "a{{"        SOutputClosed == " }}b"
@@ -476,5 +525,7 @@ PTag == "{%- if "           STag == "%}"
 PLiquid == "{% liquid "     PLiquidClosed == "{%liquid\n" SLiquidClosed == "\n%}"
 PLiquidComment == "{% liquid comment\n"                   SLiquidComment == "endcomment\n echo x %}"
 PComment == "{% comment %}" SComment == "{% endcomment %}" PCommentOpen == "a{%-comment-%}"
+POutputX == "{{ x"           SOutputClose == " }}"
+POutputPath == "{{ a[b }}|{{ x"     \* a bracket left open in an earlier output
 PRaw == "{% raw %}"         SRaw == "{% endraw %}x"
 =============================================================================
